@@ -18,7 +18,9 @@ def build(d):
     if "__enum__" in d:
         return getattr(cls_of(d["__enum__"]), d["member"])
     if "__dt__" in d:
-        return datetime.datetime.fromtimestamp(float(d["__dt__"]), tz=datetime.UTC)
+        off = float(d.get("off") or 0)
+        tz = datetime.UTC if off == 0 else datetime.timezone(datetime.timedelta(seconds=round(off, 6)))
+        return datetime.datetime.fromtimestamp(float(d["__dt__"]), tz=tz)
     if "__cls__" in d:
         c = cls_of(d["__cls__"])
         kw = {k: build(v) for k, v in d["fields"].items()}
